@@ -320,4 +320,21 @@ theorem unrank_bijective (n k : ℕ) (u : ℕ → List ℕ)
     obtain ⟨d, len, _, c⟩ := hu (crank l) hlt
     exact crank_inj _ _ (by omega) d dl c
 
+
+/-- C01: if every value 0..v occurs among u 0 .. u (m-1) then v < m (pigeonhole; used for "the experiment-space size strictly
+bounds every id"). -/
+theorem dense_bound (m : ℕ) (u : ℕ → ℤ) (v : ℤ) (hv : 0 ≤ v)
+    (h : ∀ w : ℤ, 0 ≤ w → w ≤ v → ∃ j, j < m ∧ u j = w) : v < m := by
+  have hsub : Finset.Icc (0:ℤ) v ⊆ (Finset.range m).image u := by
+    intro w hw
+    rw [Finset.mem_Icc] at hw
+    obtain ⟨j, hj, rfl⟩ := h w hw.1 hw.2
+    exact Finset.mem_image.mpr ⟨j, Finset.mem_range.mpr hj, rfl⟩
+  have h1 := Finset.card_le_card hsub
+  have h2 : ((Finset.range m).image u).card ≤ m := by
+    simpa using Finset.card_image_le (s := Finset.range m) (f := u)
+  rw [Int.card_Icc] at h1
+  have h3 : (v + 1 - 0).toNat ≤ m := le_trans h1 h2
+  omega
+
 end Batchie
